@@ -63,6 +63,21 @@ def adv(rng, maxlen=6, plain=False) -> str:
     return s
 
 
+def many_ref_parts(rng, refs, n, plain=False):
+    """a cell with exactly n references: t0 ${r1} t1 … ${rn} tn (short literal chunks, some empty)"""
+    parts = []
+    for i in range(n):
+        if rng.random() < 0.8 or i == 0:
+            parts.append(["t", (adv(rng, 2, plain) if rng.random() < 0.5 else rng.choice(["v=", ", ", " ", "(", "<", "&"]))])
+        parts.append(["r", rng.choice(refs)])
+    parts.append(["t", rng.choice([")", " end", "", " ]]>"])])
+    # adjacent text parts never occur; an empty trailing text is dropped
+    return [p for p in parts if not (p[0] == "t" and p[1] == "")]
+
+
+REF_COUNTS = (1, 2, 15, 16, 17, 40)
+
+
 def cell_text(parts) -> str:
     out = []
     for p in parts:
@@ -144,7 +159,7 @@ def gen_parts(rng, refs, with_ref: bool, allow_instance: bool, plain=False):
 
 TRANSLATABLE = {"label", "hint", "guidance_hint", "constraint_message", "required_message", "no_app_error_string"}
 # attribute channels whose value goes through insert_xpaths: a ${ref} is replaced by the xpath inside the value
-XPATH_ATTR_CHANNELS = {"no_app_error_string", "bind::foo", "bind::jr:noAppErrorString"}
+XPATH_ATTR_CHANNELS = {"no_app_error_string", "bind::foo", "bind::jr:noAppErrorString", "appearance", "body::bar"}
 REF_CHANNELS = ["label", "hint", "guidance_hint", "constraint_message", "required_message", "choice_label", "group_label"]
 SURVEY_CHANNELS = ["label", "hint", "guidance_hint", "constraint_message", "required_message", "no_app_error_string", "default",
                    "appearance", "bind::foo", "body::bar"]
